@@ -118,13 +118,12 @@ def single_cut_arm(c, tier, prop):
         if not res.get("violations") and res.get("counters", {}).get("publish_during_deploy", 0) + res.get("counters", {}).get("publish_before_deploy", 0) == 0:
             c.errors.append("restart arm W=%d: no publication completed inside a start() of the real job" % W)
     # 3. transition cover of the 1x1 graph: every (state, step) of the model once on the real job
-    k = consts(1, 2, 1)
-    r = vlib.run_tlc("Restart", cfg=dict(constants=k, invariants=["DumpAll"], view="viewT"), workers=1, timeout=300, name="Restart-cover")
-    if not r.ok:
-        raise vlib.MachineryError("Restart cover generation failed: %s %s\n%s" % (r.error, r.violated, r.out[-2000:]))
-    c.add_tlc(r, "Restart transition cover " + label(k))
-    cover = storelib._maximal(r.behaviours)
-    _replay(c, prop, k, cover, "transition cover")
+    for k in ([consts(1, 2, 1)] if quick else [consts(1, 2, 1), consts(1, 3, 2), consts(2, 2, 1)]):
+        r = vlib.run_tlc("Restart", cfg=dict(constants=k, invariants=["DumpAll"], view="viewT"), workers=1, timeout=900, name="Restart-cover")
+        if not r.ok:
+            raise vlib.MachineryError("Restart cover generation failed: %s %s\n%s" % (r.error, r.violated, r.out[-2000:]))
+        c.add_tlc(r, "Restart transition cover " + label(k))
+        _replay(c, prop, k, storelib._maximal(r.behaviours), "transition cover")
     # 4. simulated behaviours, two workers, overlapping publications held back while Running / Paused
     n = 150 if quick else 1500
     for i, (hold, focus) in enumerate((('@{"Running"}', True), ('@{"Running", "Idle"}', True), ("@{}", True), ("@{}", False))):
